@@ -151,26 +151,54 @@ def rule_operator_table(ctx):
 
 
 def rule_timestamp_coercion(ctx):
+    """When the stored value is a datetime, timestamp TEXT in the filter value is converted to an instant -- a bare string, and
+    every string member of a collection value (`in`); the conversion is the plain one (no precision argument: truncating the
+    filter value moves the comparison), and any other filter value is used as it is."""
     run = ctx.run
     prog = ctx.prog
     R = "C12.timestamp-coercion"
     fi = prog.cls(FIL + "::Filter").methods["_check_property"]
     rel = fi.module.relpath
     objp = fi.params[1]
-    first = next((s for s in fi.node.body if isinstance(s, ast.If) and "isinstance" in norm(s.test)), None)
-    ok = False
-    if first is not None:
-        cj = sorted(norm(x) for x in (first.test.values if isinstance(first.test, ast.BoolOp) and isinstance(first.test.op, ast.And) else [first.test]))
-        ok = cj == sorted(["isinstance(%s, datetime)" % objp, "isinstance(self.value, str)"])
-        body = " ; ".join(norm(s) for s in first.body)
-        els = " ; ".join(norm(s) for s in first.orelse)
-        ok = ok and "parse_into_datetime(self.value)" in body and els.endswith("= self.value")
-        ok = ok and norm(first.body[0].targets[0]) == norm(first.orelse[0].targets[0])
-    run.check(ok, R, key(rel, fi.qualname, "string-vs-datetime"),
+    # the effective filter value: the name every operator branch compares with
+    rets = [r for r in returns_of(fi) if isinstance(r.value, ast.Compare)]
+    names = {n_.id for r in rets for n_ in ast.walk(r.value) if isinstance(n_, ast.Name)} - {objp, "self"}
+    if len(names) != 1:
+        raise AnalysisError("Filter._check_property: the effective filter value is not one local name (%s)" % sorted(names))
+    F = next(iter(names))
+    defs = [a_ for a_ in body_walk(fi.node) if isinstance(a_, ast.Assign) and norm(a_.targets[0]) == F]
+    facts = {"string": False, "members": False, "as-given": False}
+    for a_ in defs:
+        gs = [(norm(t), pol) for t, pol, _ in guard_chain(a_)]
+        pos = " & ".join(t for t, pol in gs if pol)
+        v = a_.value
+        if isinstance(v, ast.Call) and call_simple_name(v) == "parse_into_datetime" and len(v.args) == 1 and norm(v.args[0]) == "self.value" \
+                and ("isinstance(%s, datetime)" % objp) in pos and "isinstance(self.value, str)" in pos:
+            facts["string"] = True
+        elif isinstance(v, (ast.Call, ast.GeneratorExp, ast.ListComp, ast.SetComp)) and ("isinstance(%s, datetime)" % objp) in pos \
+                and any(isinstance(c_, ast.Call) and call_simple_name(c_) == "parse_into_datetime" for c_ in ast.walk(v)) \
+                and any(isinstance(g_, ast.comprehension) and norm(g_.iter) == "self.value" for g_ in ast.walk(v)):
+            facts["members"] = True
+        elif norm(v) == "self.value":
+            facts["as-given"] = True
+    run.check(facts["string"] and facts["as-given"], R, key(rel, fi.qualname, "string-vs-datetime"),
               "timestamp strings are not converted to instants exactly when the stored value is a datetime", file=rel,
-              line=first.lineno if first is not None else fi.node.lineno, function=fi.qualname,
-              expected="if isinstance(obj_value, datetime) and isinstance(self.value, str): parse_into_datetime(self.value) else self.value",
-              found=short(first, 200) if first is not None else None)
+              line=fi.node.lineno, function=fi.qualname,
+              expected="isinstance(obj_value, datetime) and isinstance(self.value, str) -> parse_into_datetime(self.value); else self.value",
+              found=[short(a_) for a_ in defs])
+    run.check(facts["members"], R, key(rel, fi.qualname, "string-members-vs-datetime"),
+              "the string members of a collection filter value are not converted: Filter('created', 'in', ['2017-01-01T00:00:00Z']) "
+              "never matches, not even the identical timestamp, although `=` with the same string does", file=rel,
+              line=fi.node.lineno, function=fi.qualname,
+              expected="for a datetime property and a list/tuple value: parse_into_datetime(v) for every string member v",
+              found=[short(a_) for a_ in defs])
+    precise = [c_ for c_ in body_walk(fi.node) if isinstance(c_, ast.Call) and call_simple_name(c_) == "parse_into_datetime"
+               and (len(c_.args) != 1 or c_.keywords)]
+    run.check(not precise, R, key(rel, fi.qualname, "plain-conversion"),
+              "the filter value is converted with a precision argument: it is truncated before the comparison, so `=` misses "
+              "objects with finer timestamps and the order comparisons are shifted", file=rel,
+              line=precise[0].lineno if precise else fi.node.lineno, function=fi.qualname, expected="parse_into_datetime(<text>)",
+              found=[short(c_) for c_ in precise])
 
 
 def rule_conjunction(ctx):
@@ -332,9 +360,16 @@ def _optimiser_table(fi):
                 return [e.value for e in test.comparators[0].elts if isinstance(e, ast.Constant)]
         raise AnalysisError("_find_search_optimizations: unsupported operator test %s" % norm(test))
 
-    cur = next((s for s in loops[0].body if isinstance(s, ast.If)), None)
-    if cur is None or len([s for s in loops[0].body if not (isinstance(s, ast.Expr) and isinstance(s.value, ast.Constant))]) != 1:
-        raise AnalysisError("_find_search_optimizations: loop body is not one if/elif chain")
+    # leading `if <cond>: continue` statements exempt filters from every optimisation; then exactly one if/elif chain
+    stmts = [s for s in loops[0].body if not (isinstance(s, ast.Expr) and isinstance(s.value, ast.Constant))]
+    skips = []
+    while stmts and isinstance(stmts[0], ast.If) and not stmts[0].orelse and len(stmts[0].body) == 1 and isinstance(stmts[0].body[0], ast.Continue):
+        skips.append(stmts[0].test)
+        stmts = stmts[1:]
+    out["<skips>"] = skips
+    cur = stmts[0] if len(stmts) == 1 and isinstance(stmts[0], ast.If) else None
+    if cur is None:
+        raise AnalysisError("_find_search_optimizations: loop body is not [skip guards +] one if/elif chain")
     while cur is not None:
         t = cur.test
         if not (isinstance(t, ast.Compare) and norm(t.left) == fvar + ".property" and isinstance(t.ops[0], ast.Eq)
@@ -370,6 +405,22 @@ def rule_optimiser(ctx):
     fi = prog.func(FS + "::_find_search_optimizations")
     rel = fi.module.relpath
     table = _optimiser_table(fi)
+    skips = table.pop("<skips>", [])
+    # `in` with a STRING value is a substring test (Filter._check_property: `property in value`): no whitelist of types / ids
+    # follows from it, so such a filter must be exempt from the pruning (it is still evaluated on every file read)
+    lp = next(n for n in body_walk(fi.node) if isinstance(n, ast.For) and norm(n.iter) == fi.params[0])
+    fv = norm(lp.target)
+    exempt = any(("%s.op == 'in'" % fv) in norm(t_) and ("isinstance(%s.value, str)" % fv) in norm(t_) and " or " not in norm(t_)
+                 for t_ in skips)
+    run.check(exempt, R, key(rel, fi.qualname, "string-valued-in-not-pruned"),
+              "a filter `in` with a string value (substring test, as in Filter('type', 'in', 'malware,tool') or Filter('id', 'in', "
+              "'<id>')) is used to prune directories as if the string were a set of values: the filesystem source returns nothing "
+              "while the same filter evaluated on the stored objects matches", file=rel, line=lp.lineno, function=fi.qualname,
+              expected="if f.op == 'in' and isinstance(f.value, str): continue", found=[short(t_) for t_ in skips])
+    other_skips = [t_ for t_ in skips if not (("%s.op == 'in'" % fv) in norm(t_) and ("isinstance(%s.value, str)" % fv) in norm(t_))]
+    run.check(not other_skips, R, key(rel, fi.qualname, "no-other-exemptions"),
+              "filters are exempted from the pruning table under a condition the model does not know", file=rel, line=lp.lineno,
+              function=fi.qualname, expected="only the string-valued `in` exemption", found=[short(t_) for t_ in other_skips])
     for k in sorted(set(table) | set(OPTIMISER)):
         got, want = table.get(k, set()), OPTIMISER.get(k, set())
         run.check(got == want, R, key(rel, fi.qualname, "%s %s" % k),
